@@ -159,7 +159,11 @@ def same(got, exp):
             sub = dict(zip(syms, [sympy.Integer(p) for p in KPRIME]))
             g, e = float(sympy.sympify(got).subs(sub)), float(sympy.sympify(exp).subs(sub))
             return abs(g - e) <= 1e-13 * max(abs(g), abs(e))
-        if isinstance(got, float) or isinstance(exp, float):
+        import numbers
+
+        if isinstance(got, numbers.Integral) and not isinstance(got, bool):
+            got = int(got)  # numpy integer scalars denote the same exact value
+        if isinstance(got, (float, numbers.Real)) and not isinstance(got, (int, Fr)) or isinstance(exp, float):
             g, e = float(got), float(exp)
             return abs(g - e) <= 1e-13 * max(abs(g), abs(e))
         if isinstance(got, bool) or not isinstance(got, (int, Fr)):
@@ -261,6 +265,17 @@ def _check_reaction(res, rt, S, modes=None, stoich=True):
                 key = "C03|Reaction.rate|substance_keys=%s|k=%s" % ("given" if given else "None", kmode)
                 what = "Reaction(%r, %r, %r, inact_reac=%r, inact_prod=%r).rate(%s%s)" % (reac, prod, kparam, ir, ip, _show(variables), ", substance_keys=%r" % keys if given else "")
                 ok &= _cmp_rates(res, got, exp, given, (), key, what, case)
+            # only what the rate needs is supplied: the concentrations of the ACTIVE reactants (and a named constant);
+            # species that are products or inactive-only need no entry
+            need = {s: conc[s] for s in reac}
+            need.update(extra)
+            try:
+                got = r.rate(dict(need))
+            except Exception as e:
+                got = "EXC %s: %s" % (type(e).__name__, e)
+            key = "C03|Reaction.rate|variables=active-reactants-only|k=%s" % kmode
+            what = "Reaction(%r, %r, %r, inact_reac=%r, inact_prod=%r).rate(%s)" % (reac, prod, kparam, ir, ip, _show(need))
+            ok &= _cmp_rates(res, got, exp, False, (), key, what, case)
             if eff:
                 order = sum(reac.values())
                 cat = any(s in prod or s in ip for s in list(reac) + list(ir))
@@ -620,6 +635,24 @@ def _check_orders(res, za, zb, kmode, vkind):
             got2 = ReactionSystem([rxn], S, checks=()).rates(dict(variables))
         except Exception as e:
             got = got2 = "EXC %s: %s" % (type(e).__name__, e)
+        if vkind == "float" and kmode != "named" and not isinstance(got, str):
+            # the array route on the same system: net stoichiometry row and dCdt_list(law_of_mass_action_rates)
+            from chempy.kinetics.ode import law_of_mass_action_rates, dCdt_list
+
+            res.evaluations += 1
+            try:
+                rs_ = ReactionSystem([rxn], S, checks=())
+                row = [float(x) for x in rs_.net_stoichs()[0]]
+                arr = [float(x) for x in dCdt_list(rs_, list(law_of_mass_action_rates([conc[s_] for s_ in S], rs_, variables=dict(variables))))]
+            except Exception as e:
+                row, arr = "EXC %s: %s" % (type(e).__name__, e), None
+            want_row = [-float(a), -float(b), 1.0]
+            good = row == want_row and arr is not None and all(_zsame(x, exp[s_]) for x, s_ in zip(arr, S))
+            res.outcomes["%s orders (%s, %s) array route" % ("ok" if good else "WRONG", a, b)] += 1
+            if not good:
+                k = "C03|net_stoichs/dCdt_list|order<=1|k=%s" % kmode
+                res.violation(k, "ReactionSystem([Reaction(%r, {'C': 1}, %r)]): net_stoichs row %r (written %r), dCdt_list %r (model %s)" % (co, kparam, row, want_row, arr, _show(exp)),
+                              dict(case, expect_key=k), [row, arr], [want_row, _show(exp)])
         for api, g in (("Reaction.rate", got), ("ReactionSystem.rates", got2)):
             res.evaluations += 1
             ok = isinstance(g, dict) and all(_zsame(g.get(k_, 0), v) for k_, v in exp.items()) and all(k_ in exp for k_ in g)
